@@ -54,7 +54,7 @@ inline int buildSymbolicTree(Tree& t, int n, uint8_t* parentOut) {
 
 // structural invariants shared by C07/C08/C09 (tree = any BaseBlockTree instantiation)
 template <typename Tree>
-inline void checkStructure(Tree& t, int base) {
+inline void checkStructure(Tree& t, int base, const typename Tree::index_t* finalBlock = nullptr) {
   typedef typename Tree::index_t I;
   auto blocks = t.getBlocks();
   for (I* b : blocks) {
@@ -64,7 +64,8 @@ inline void checkStructure(Tree& t, int base) {
       if (b->pprev->isFailed()) verif_check(b->isFailed(), base + 3);           // descendants of a failed block are failed
       if (b->isValid()) verif_check(b->pprev->isValid(), base + 4);             // valid => ancestors valid
     }
-    verif_check((t.getTips().count(b) > 0) == b->isValidTip(), base + 5);        // tip set == usable blocks without usable child
+    // tip set == usable blocks without usable child (after finalization a block that forks off below the final block is no longer usable)
+    verif_check((t.getTips().count(b) > 0) == (b->isValidTip() && !(finalBlock && isBlockOutdated(*finalBlock, *b))), base + 5);
   }
   for (I* tip : t.getTips()) verif_check(tip != nullptr && !tip->isDeleted(), base + 6);
   auto& chain = t.getBestChain();
